@@ -1,0 +1,36 @@
+//go:build verif
+
+// Contracts for the govc verifier (/verif). Comment-only: this file contains no code.
+package proxy
+
+//@ func httpProxyErrorHandler
+//@   props C19
+//@   requires w != nil
+//@   assigns lastStatus, statusWrites
+//@   ensures nopanic
+//@   ensures statusWrites == old(statusWrites) + 1
+//@   ensures implements(err, net.Error) && netTimeout(err) ==> lastStatus == 504
+//@   ensures implements(err, net.Error) && !netTimeout(err) ==> lastStatus == 502
+//@   ensures !implements(err, net.Error) ==> lastStatus == 502 || lastStatus == 499 || lastStatus == 500
+//@
+//@ spec fun hexc(d int) int = d < 10 ? 48 + d : 87 + d
+//@
+//@ func uint16base16
+//@   props C20
+//@   requires len(digit16) == 16 && string(digit16) == "0123456789abcdef"
+//@   ensures nopanic
+//@   ensures len(result) == 6 && result[0] == '0' && result[1] == 'x'
+//@   ensures int(result[2]) == hexc(int(n) / 4096) && int(result[3]) == hexc((int(n) / 256) % 16)
+//@   ensures int(result[4]) == hexc((int(n) / 16) % 16) && int(result[5]) == hexc(int(n) % 16)
+//@
+//@ func i32toa
+//@   props C20
+//@   ensures nopanic
+//@   ensures 1 <= len(result) && len(result) <= 11
+//@   ensures n < 0 ==> result[0] == '-'
+//@   ensures n >= 0 ==> '0' <= result[0] && result[0] <= '9'
+//@   ensures result[len(result)-1] == '0' + abs(int(n)) % 10
+//@   loop 1 invariant 1 <= pos && pos <= 11 && i >= 0 && i < p10(pos-1) && (pos < 11 ==> i > 0) && (signed <==> n < 0)
+//@   loop 1 invariant pos < 11 ==> buf[10] == '0' + abs(int(n)) % 10
+//@   loop 1 invariant pos == 11 ==> i == abs(int(n))
+//@   loop 1 decreases pos
